@@ -94,14 +94,19 @@ impl Shard {
     /// Report a violation of `property` with a stable signature. Listed known findings are
     /// counted separately; everything else gets a replay file and is reported.
     pub fn violation(&mut self, known: &[Known], property: &str, seed: u64, sig: &str, detail: &str, replay: Value) {
+        let _ = self.violation_known(known, property, seed, sig, detail, replay);
+    }
+
+    /// like `violation`; returns true when it matched a listed known finding (exploration may continue)
+    pub fn violation_known(&mut self, known: &[Known], property: &str, seed: u64, sig: &str, detail: &str, replay: Value) -> bool {
         if let Some(k) = known.iter().find(|k| k.status == "known" && k.property == property && k.signature == sig) {
             let e = self.known_hits.entry(sig.to_string()).or_insert((k.description.clone(), 0));
             e.1 += 1;
-            return;
+            return true;
         }
         if self.violations.len() >= 20 {
             self.add("violations_not_listed", 1);
-            return;
+            return false;
         }
         let dir = verif_root().join("replays");
         let _ = std::fs::create_dir_all(&dir);
@@ -110,6 +115,7 @@ impl Shard {
         let body = json!({"property": property, "signature": sig, "detail": detail, "seed": seed, "replay": replay});
         let _ = std::fs::write(&path, serde_json::to_string_pretty(&body).unwrap_or_default());
         self.violations.push(Violation { sig: sig.to_string(), detail: detail.to_string(), replay: path.to_string_lossy().to_string() });
+        false
     }
 
     pub fn to_json(&self) -> Value {
